@@ -17,18 +17,20 @@ between two scheduling points of the baton harness (`harness/h_mutex.cpp`).
 -/
 namespace Cocls.Mutex
 
+/-- `node a k`: an awaiter of agent `a`; `k` identifies its address among the awaiters of `a` (a stale expected value of
+    a publishing CAS can meet a *new* request of the same agent at the same address: the CAS then succeeds) -/
 inductive Elem where
-  | node (a : Nat) | door
+  | node (a : Nat) (k : Nat) | door
   deriving DecidableEq, Repr, Inhabited
 
 inductive Seen where
-  | null | door | node (a : Nat)
+  | null | door | node (a : Nat) (k : Nat)
   deriving DecidableEq, Repr, Inhabited
 
 def seenOf : List Elem → Seen
   | [] => Seen.null
   | Elem.door :: _ => Seen.door
-  | Elem.node a :: _ => Seen.node a
+  | Elem.node a k :: _ => Seen.node a k
 
 inductive Flavour where
   | lock      -- blocking `lock().wait()` / `ownership own(mx.lock())` / `force_wait()`; blocks the OS thread it runs on
@@ -150,6 +152,14 @@ inductive Outcome where
 def curRound (c : Cfg) (s : State) (a : Nat) : Option Round := (c.rounds a)[s.round a]?
 def flOf (c : Cfg) (s : State) (a : Nat) : Option Flavour := (curRound c s a).map (·.fl)
 def relOf (c : Cfg) (s : State) (a : Nat) : Option Rel := (curRound c s a).map (·.rel)
+/-- address of the awaiter of `a`'s current request: the `co_await` temporary in the coroutine frame and the callback
+    awaiter in the contender's frame are at the same place in every round, a `sync_awaiter` of a blocking lock is not
+    (the harness pads the stack by the round number) -/
+def keyOf (c : Cfg) (s : State) (a : Nat) : Nat :=
+  match flOf c s a with
+  | some Flavour.co => 0
+  | some Flavour.cb => 0
+  | _ => s.round a + 1
 /-- the ownership object agent `a` uses in its current round -/
 def objOf (c : Cfg) (s : State) (a : Nat) : Nat :=
   match curRound c s a with
@@ -159,7 +169,7 @@ def objOf (c : Cfg) (s : State) (a : Nat) : Nat :=
 /-- the nodes above the bottom marker, newest first -/
 def nodesOf : List Elem → List Nat
   | [] => []
-  | Elem.node a :: r => a :: nodesOf r
+  | Elem.node a _ :: r => a :: nodesOf r
   | Elem.door :: _ => []
 
 /-- hand the lock to the head of `_queue`; `a` is the releasing agent running on thread `t` -/
@@ -244,10 +254,10 @@ def agentStep (c : Cfg) (s : State) (t a : Nat) : State × List Ev × Outcome :=
                       else match flOf c s a with
                         | some Flavour.co => Pc.parked
                         | _ => Pc.waitFlag) with
-            req := Elem.node a :: s.req, stamp := upd s.stamp a s.clock, clock := s.clock + 1,
+            req := Elem.node a (keyOf c s a) :: s.req, stamp := upd s.stamp a s.clock, clock := s.clock + 1,
             cur := if prev ≠ Seen.null ∧ flOf c s a = some Flavour.co then upd s.cur t none else s.cur },
-         [Ev.cas t a true (seenOf s.req) (Seen.node a)], Outcome.op)
-      else (setPc s a (Pc.sub (seenOf s.req)), [Ev.cas t a false (seenOf s.req) (Seen.node a)], Outcome.op)
+         [Ev.cas t a true (seenOf s.req) (Seen.node a (keyOf c s a))], Outcome.op)
+      else (setPc s a (Pc.sub (seenOf s.req)), [Ev.cas t a false (seenOf s.req) (Seen.node a (keyOf c s a))], Outcome.op)
   | Pc.build =>
       -- `build_queue(self)`: exchange with the doorman, move everything above `self` to `_queue` (reversed)
       ({ setPc s a Pc.crit with req := [Elem.door], queue := ((nodesOf s.req).filter (· ≠ a)).reverse ++ s.queue,
